@@ -169,12 +169,13 @@ theorem C15_called_log (ops : List Op) :
 /-- **C15_callback_once** (full strength, no side condition).  For every operation sequence from
 `init` — lookups, cancels, replies in any order, duplicated, from several servers, with foreign
 ids, ticks, any number of lookups (the 16-bit id wraps), callbacks that themselves issue and
-cancel lookups — with `st` the final state and `evs` all callback invocations:
+cancel lookups (their own included), change the server list, ask `isRunning` — with `st` the final state and `evs` all callback invocations:
 1. no lookup's callback runs twice, and the log `st.called` is exactly `evs`;
 2. every lookup issued so far is called back, or was cancelled while outstanding, or was refused
    (no server / all 65 535 ids in use), or is still outstanding and YOUNGER THAN FIVE TICKS — so
    from its fifth tick on a lookup that was neither cancelled nor refused has been called;
-3. a cancelled lookup is never called, an outstanding one is in neither log;
+3. a cancelled lookup is never called, a refused one is never called nor cancelled, an outstanding
+   one is in none of the logs;
 4. a callback is either a timeout delivered exactly at the fifth tick after the lookup was
    issued, or a reply/error callback delivered before that. -/
 theorem C15_callback_once (ops : List Op) :
@@ -184,15 +185,17 @@ theorem C15_callback_once (ops : List Op) :
       s ∈ (run init ops).1.called ∨ s ∈ (run init ops).1.cancelled ∨ s ∈ (run init ops).1.refused ∨
       ∃ e ∈ (run init ops).1.reqs, e.2.serial = s ∧ (run init ops).1.now - e.2.born < 5) ∧
     (∀ s ∈ (run init ops).1.cancelled, s ∉ (run init ops).1.called) ∧
+    (∀ s ∈ (run init ops).1.refused, s ∉ (run init ops).1.called ∧ s ∉ (run init ops).1.cancelled) ∧
     (∀ e ∈ (run init ops).1.reqs,
-      e.2.serial ∉ (run init ops).1.called ∧ e.2.serial ∉ (run init ops).1.cancelled) ∧
+      e.2.serial ∉ (run init ops).1.called ∧ e.2.serial ∉ (run init ops).1.cancelled ∧
+      e.2.serial ∉ (run init ops).1.refused) ∧
     (∀ e ∈ allEvents (run init ops).2,
       (e.result.status = .timeout → e.age = 5) ∧ (e.result.status ≠ .timeout → e.age < 5)) := by
   have h1 := C15_callback_at_most_once ops
   have h2 := C15_called_log ops
   have h3 := run_ri ops init init_ri
   have h4 := run_inv ops init init_inv
-  refine ⟨h1, h2, ?_, h4.2.1, h4.2.2.1, h3.2⟩
+  refine ⟨h1, h2, ?_, h4.2.cc, h4.2.rc, h4.2.out, h3.2⟩
   intro s hs
   rcases h3.1.2.2 s hs with h | h | h | ⟨e, he, hse⟩
   · exact Or.inl h
